@@ -13,7 +13,7 @@ for tier in ("quick", "thorough"):
         if m:
             res.setdefault(m.group(1), {})[tier] = (int(m.group(4)), m.group(7).strip())
 rows = ["| seed | property | change (as described by its author) | needs | quick check of that property | caught by |", "|---|---|---|---|---|---|"]
-for d in sorted(glob.glob(os.path.join(root, "seeded", "s-*"))):
+for d in sorted(glob.glob(os.path.join(root, "seeded", "s-*")) + glob.glob(os.path.join(root, "seeded", "fix-*"))):
     sid = os.path.basename(d)
     m = json.load(open(os.path.join(d, "meta.json")))
     r = res.get(sid, {})
